@@ -151,6 +151,32 @@ def enumerated(rnd):
         out.append(({"k": "cmp", "f": a[0], "args": [a[0]]}, {"t": "c", "n": a[1]["n"], "a": [a[1]]}, a[2] + "(" + a[2] + ")"))
         out.append(({"k": "list", "items": [a[0], a[0]]},
                     {"t": "c", "n": cps("."), "a": [a[1], {"t": "c", "n": cps("."), "a": [a[1], {"t": "a", "n": cps("[]")}]}]}, "[" + a[2] + "," + a[2] + "]"))
+    # two literals in one term whose printed forms coincide (a compiler cache keyed by the printed
+    # form would confuse them)
+    def cmpl(f, parts):
+        fa = mk_atom(f)
+        return ({"k": "cmp", "f": fa[0], "args": [p[0] for p in parts]}, {"t": "c", "n": fa[1]["n"], "a": [p[1] for p in parts]},
+                fa[2] + "(" + ",".join(p[2] for p in parts) + ")")
+    g.occ = 100
+    fa = cmpl("f", [mk_atom("a")])
+    out.append(cmpl("k", [fa, mk_qatom("f(a)")]))
+    out.append(cmpl("k", [mk_qatom("f(a)"), fa]))
+    gab = cmpl("g", [mk_atom("a"), mk_atom("b")])
+    out.append(cmpl("k", [cmpl("g", [mk_qatom("a,b")]), gab]))
+    out.append(cmpl("k", [gab, cmpl("g", [mk_qatom("a,b")])]))
+    lab = ({"k": "list", "items": [mk_atom("a")[0], mk_atom("b")[0]]},
+           {"t": "c", "n": cps("."), "a": [mk_atom("a")[1], {"t": "c", "n": cps("."), "a": [mk_atom("b")[1], {"t": "a", "n": cps("[]")}]}]}, "[a,b]")
+    lq = ({"k": "list", "items": [mk_qatom("a,b")[0]]}, {"t": "c", "n": cps("."), "a": [mk_qatom("a,b")[1], {"t": "a", "n": cps("[]")}]}, "['a,b']")
+    out.append(cmpl("k", [lq, lab]))
+    out.append(cmpl("k", [lab, lq]))
+    out.append(cmpl("w", [cmpl("f", [mk_atom("x1"), g.anon()])]))
+    out.append(cmpl("w", [cmpl("f", [g.anon(), mk_atom("x1")])]))
+    out.append(cmpl("k", [({"k": "list", "items": [g.anon()[0], mk_atom("x1")[0]]},
+                           {"t": "c", "n": cps("."), "a": [{"t": "v", "name": "_%d" % g.occ}, {"t": "c", "n": cps("."), "a": [mk_atom("x1")[1], {"t": "a", "n": cps("[]")}]}]}, "[_,x1]")]))
+    vx = ({"k": "var", "name": cps("X")}, {"t": "v", "name": "X"}, "X")
+    out.append(cmpl("v", [cmpl("f", [vx]), mk_qatom("X_"), cmpl("f", [mk_qatom("X_")])]))
+    out.append(cmpl("v", [cmpl("f", [mk_qatom("X_")]), cmpl("f", [vx])]))
+    out.append(cmpl("n", [cmpl("f", [mk_num("1")]), cmpl("f", [mk_qatom("1")]), cmpl("f", [mk_num("01")])]))
     for sp in ["0", "1", "00", "01", "007", "10", "1234567890123456789012345678901234567890", "0000000000000000000000000000000000000001"]:
         out.append(mk_num(sp))
     return out
